@@ -161,6 +161,12 @@ func (e *Engine) intrinsic(fr *Frame, st *State, ins ssa.Instruction, fn *ssa.Fu
 				unsupported("fresh() needs an old state")
 			}
 			return tb.IntCmp(">=", tb.RootID(e.sBase(args[0].(*Term))), fr.old.clock), true
+		case "freshObj":
+			// freshObj(p): the object p points to was allocated during this call (p is passed as interface{})
+			if fr.old == nil {
+				unsupported("freshObj() needs an old state")
+			}
+			return tb.IntCmp(">=", tb.RootID(tb.Acc(args[0].(*Term), 1)), fr.old.clock), true
 		case "freshStr":
 			if fr.old == nil {
 				unsupported("freshStr() needs an old state")
